@@ -8,7 +8,7 @@ import logging
 from typing import TYPE_CHECKING, Any, List, Tuple
 
 from pyopenapi_gen.core.utils import NameSanitizer
-from pyopenapi_gen.helpers.endpoint_utils import get_param_type, get_request_body_type
+from pyopenapi_gen.helpers.endpoint_utils import get_param_type, get_request_body_type, get_unique_param_names
 from pyopenapi_gen.helpers.url_utils import extract_url_variables
 
 if TYPE_CHECKING:
@@ -43,8 +43,8 @@ class EndpointParameterProcessor:
         ordered_params: List[dict[str, Any]] = []
         param_details_map: dict[str, dict[str, Any]] = {}
 
-        for param in op.parameters:
-            param_name_sanitized = NameSanitizer.sanitize_method_name(param.name)
+        # Distinct parameters may derive to the same identifier: every one gets an argument of its own
+        for param, param_name_sanitized in zip(op.parameters, get_unique_param_names(op)):
             param_info = {
                 "name": param_name_sanitized,
                 "type": get_param_type(param, context, self.schemas),
